@@ -20,6 +20,7 @@ import json
 import os
 import subprocess
 import sys
+import warnings
 
 import numpy as np
 
@@ -246,17 +247,45 @@ def _ops(p):
     return out
 
 
+def _alter(p):
+    """the same program over leaves with other values (same shapes, chunks and dtypes)"""
+    if not isinstance(p, dict) or "op" not in p:
+        return p
+    q = dict(p)
+    if p["op"] == "from_array":
+        q["data"] = [(-v if isinstance(v, int) else v) + 1 if not isinstance(v, str) else v for v in reversed(p["data"])]
+    elif p["op"] == "full":
+        q["value"] = p["value"] + 1
+    for k in ("a", "b"):
+        if isinstance(p.get(k), dict):
+            q[k] = _alter(p[k])
+    if "args" in p:
+        q["args"] = [_alter(r) for r in p["args"]]
+    return q
+
+
 def case_joint(ctx, inp):
-    """several pipelines built on the same leaves, computed in one graph by the expression engine"""
-    ans = ask({"progs": inp["progs"]})
+    """several pipelines computed in one graph by the expression engine: variants of one pipeline on the same leaves,
+    the same pipelines over leaves with other values, and pairwise differences inside ONE expression"""
+    progs = list(inp["progs"]) + [_alter(p) for p in inp["progs"]]
+    ans = ask({"progs": progs})
     if ans["status"] != "ok":
         ctx.fail(f"expression engine failed on a joint computation: {ans['status']}: {ans.get('error')}", observed=ans.get("error"))
         return
     for i in ans["bad"]:
         ctx.fail("a pipeline computed together with others differs from the same pipeline computed alone",
-                 observed={"index": i, "names": ans["names"]})
-    for i, p in enumerate(inp["progs"]):
-        ref = np.asarray(P.build(p, np, False))
+                 observed={"index": i, "prog": progs[i], "same_name_as": [j for j, n in enumerate(ans["names"]) if j != i and n == ans["names"][i]]})
+    for i, j in ans.get("bad_pairs", []):
+        ctx.fail("x_i - x_j inside one expression differs from the difference of the two pipelines' own values",
+                 observed={"i": progs[i], "j": progs[j]})
+    for i, p in enumerate(progs):
+        with warnings.catch_warnings():
+            warnings.simplefilter("ignore")
+            ref = np.asarray(P.build(p, np, False))
+        v = ans["values"][i]
+        got = np.array([float(x) if isinstance(x, str) else x for x in v["data"]], dtype=v["dtype"]).reshape(v["shape"])
+        if got.shape != ref.shape or not np.allclose(got.astype(float), ref.astype(float), rtol=1e-9, atol=1e-9, equal_nan=True):
+            ctx.fail("joint: a pipeline differs from NumPy", observed={"prog": p, "got": got.tolist()}, expected=ref.tolist())
     ctx.branch(f"joint×{len(inp['progs'])}")
 
 
